@@ -1,11 +1,11 @@
 #!/usr/bin/env python3
-"""tools/collect_seed.py <ID> [check ids...]: verifies a sub-agent's seeded change in /tmp/wt-<ID> independently,
+"""tools/collect_seed.py <PROPERTY> [<TAG> [check ids...]]: verifies a sub-agent's seeded change in /tmp/wt-<ID> independently,
 stores it under /verif/seeded/<ID>/, runs the named checks against it (applied to /repo, always reverted), records
 the outcome in meta.json and removes the worktree."""
 import json, os, shutil, subprocess, sys
 pid = sys.argv[1]
-tag = sys.argv[2] if len(sys.argv) > 2 and not sys.argv[2].startswith('C') else pid
-checks = [a for a in sys.argv[2:] if a.startswith('C')] or [pid]
+tag = sys.argv[2] if len(sys.argv) > 2 else pid
+checks = sys.argv[3:] or [pid]
 wt = f'/tmp/wt-{tag}'
 dst = f'/verif/seeded/{tag}'
 os.makedirs(dst, exist_ok=True)
